@@ -45,6 +45,21 @@ fn one<B: Backend>(r0: &N, ctx: &mut Ctx) -> Result<(), Failure> {
     if B::encode(&e_neg) != B::encode(&e) || !B::eq(&e_neg, &e) {
         ctx.report(format!("C07|{}|sign-invariance", B::NAME), format!("encode_to_curve(-r0) != encode_to_curve(r0) for r0 = {r0:x}"))?;
     }
+    // the map is a function of r0: the same again after other inputs (sharing r0's low or high half) went through it
+    {
+        let bytes = crate::refmodel::le32(r0);
+        let mut a = bytes;
+        a[16..].fill(0);
+        let mut b = bytes;
+        b[..16].fill(0);
+        let _ = B::elligator(&(N::from_bytes_le(&a) % &Q.m));
+        let _ = B::elligator(&(N::from_bytes_le(&b) % &Q.m));
+        let _ = B::elligator(&N::from(1u32));
+        let again = B::elligator(r0);
+        if B::encode(&again) != B::encode(&e) {
+            ctx.report(format!("C07|{}|not-a-function", B::NAME), format!("encode_to_curve({r0:x}) gives a different result after other inputs were mapped"))?;
+        }
+    }
     // the output is a valid element: its encoding is the specification's and decodes back to it
     let enc = B::encode(&e);
     if enc != c.encode_bytes(&want) {
